@@ -89,6 +89,8 @@ struct World {
     res_owner: std::collections::BTreeMap<usize, usize>,
     /// per task-like item: the resource it stands for (reads of a shared resource are counted as tasks)
     task_res: Vec<Option<usize>>,
+    /// per boundary: a waiter spawned in the boundary's scope has come back from `until_finished()`
+    until: Vec<Rc<std::cell::Cell<bool>>>,
 }
 
 fn build(w: &Rc<RefCell<World>>, items: &[Item], cur: usize, ctx: Option<usize>) {
@@ -107,7 +109,10 @@ fn build(w: &Rc<RefCell<World>>, items: &[Item], cur: usize, ctx: Option<usize>)
                 let _ = create_suspense_scope(|| {
                     let me = try_use_context::<SuspenseScope>().expect("suspense scope in context");
                     { let mut ww = w.borrow_mut(); ww.scopes.push(use_current_scope()); ww.scope_parent.push(Some(cur)); ww.dead_scopes.push(false);
-                      let sel = me.is_loading(); ww.loading.push((sel, inner, ctx)); }
+                      let sel = me.is_loading(); ww.loading.push((sel, inner, ctx));
+                      let done = Rc::new(std::cell::Cell::new(false)); ww.until.push(done.clone());
+                      // (scoped: the waiter goes with the boundary's scope)
+                      sycamore_futures::spawn_local_scoped(async move { me.until_finished().await; done.set(true); }); }
                     build(w, cs, inner, Some(b));
                 });
             }
@@ -180,7 +185,19 @@ fn observe(w: &World, from: usize) -> String {
     polled.sort_by(|a, b| a.0.cmp(&b.0).then(b.1.cmp(&a.1)));
     let ps = polled.iter().map(|(t, l)| format!("{t}.{l}")).collect::<Vec<_>>().join(",");
     let g = match catch(sycamore::rt::use_is_loading_global) { Ok(true) => "1", Ok(false) => "0", Err(_) => "!" };
-    format!("L={ls} G={g} P=[{ps}]")
+    let us: String = w.until.iter().map(|u| if u.get() { '1' } else { '0' }).collect();
+    format!("L={ls} G={g} P=[{ps}] U={us}")
+}
+
+/// per boundary: is an unfinished, uncancelled task registered at it or at an enclosing boundary (None: its scope is gone)
+fn boundary_wants(ww: &World) -> Vec<Option<bool>> {
+    (0..ww.loading.len()).map(|b| {
+        if ww.dead_scopes[ww.loading[b].1] { return None; }
+        let mut chain = vec![b];
+        let mut p = ww.loading[b].2;
+        while let Some(x) = p { chain.push(x); p = ww.loading[x].2; }
+        Some((0..ww.task_left.len()).any(|t| ww.task_left[t] > 0 && !ww.task_cancelled[t] && ww.task_boundary[t].map(|tb| chain.contains(&tb)).unwrap_or(false)))
+    }).collect()
 }
 
 fn in_subtree(w: &World, anc: usize, mut s: usize) -> bool {
@@ -217,6 +234,8 @@ fn run_suspense(items: &[Item], events: &[String]) -> (String, Option<String>) {
         let (no_initial_drain, events): (bool, &[String]) = if events.first().map(|e| e == "n").unwrap_or(false) { (true, &events[1..]) } else { (false, events) };
         if !no_initial_drain { drain().await; }
         out.push(root.run_in(|| observe(&w.borrow(), 0)));
+        // per boundary: has there been a moment (at an observation point after an executor turn) at which it was not loading
+        let mut ever_idle: Vec<bool> = boundary_wants(&w.borrow()).iter().map(|x| !no_initial_drain && *x == Some(false)).collect();
         'groups: for e in events {
             let from = w.borrow().polls.len();
             let mut r: Result<(), String> = Ok(());
@@ -275,6 +294,23 @@ fn run_suspense(items: &[Item], events: &[String]) -> (String, Option<String>) {
                     if got != want {
                         verdict = Some(format!("[suspense-loading] after event {e}: boundary {b} reports loading={got} but {}", if want { "an unfinished task is registered under it or an enclosing boundary" } else { "no unfinished task is registered under it or an enclosing boundary" }));
                         break;
+                    }
+                }
+                // oracle: `until_finished()` of a boundary comes back exactly once the boundary has stopped loading (own
+                // tasks AND enclosing boundaries) — not before, and then at once
+                if verdict.is_none() {
+                    for (b, want) in boundary_wants(&ww).iter().enumerate() {
+                        let Some(want) = want else { continue };
+                        if !*want { ever_idle[b] = true; }
+                        let back = ww.until[b].get();
+                        if back && !ever_idle[b] {
+                            verdict = Some(format!("[suspense-loading] after event {e}: until_finished() of boundary {b} has come back although an unfinished task has been registered under it or an enclosing boundary all the time"));
+                            break;
+                        }
+                        if !back && ever_idle[b] {
+                            verdict = Some(format!("[suspense-loading] after event {e}: boundary {b} stopped loading but a waiter on until_finished() has not come back"));
+                            break;
+                        }
                     }
                 }
                 // oracle: use_is_loading_global is true iff an unfinished, uncancelled task is registered at a
